@@ -58,6 +58,39 @@ example : loadStored (store 7 ["('sh',", "0.5,", "1,", "3)"]
            { base := "a.xyz", idx := 5, velRev := true, order := [.val (-1), .val 5], vpot := some .nan, ekin := some .nan }] := by
   rfl
 
+theorem expected_reframe (dir : String) (f : Frame) : expected (reframe dir (expected f)) = expected f := by
+  rcases f with ⟨d, b, ix, vr, ord, vp, ek⟩
+  cases vp <;> cases ek <;> simp [expected, reframe, idx0, eNum]
+
+/-- **Round trip twice.** Storing the *loaded* path again (under another number, from its
+    `accepted/` directory) and loading that gives the same frames as the first load: the archive
+    format is a fixed point after one trip (`None` index ↦ 0 and missing energy ↦ NaN happen once). -/
+theorem load_store_roundtrip_twice (step step' : Nat) (mv mv' : List String) (fs : List Frame) (hne : fs ≠ [])
+    (c : Nat) (hc : ∀ f ∈ fs, f.order.length = c) (dir : String) :
+    loadStored (store step mv fs) = .ok (fs.map expected) ∧
+    loadStored (store step' mv' ((fs.map expected).map (reframe dir))) = .ok (fs.map expected) := by
+  refine ⟨load_store_roundtrip step mv fs hne c hc, ?_⟩
+  have h := load_store_roundtrip step' mv' ((fs.map expected).map (reframe dir))
+    (by cases fs with | nil => exact absurd rfl hne | cons a t => simp) c
+    (by
+      intro g hg
+      simp only [List.map_map, List.mem_map, Function.comp] at hg
+      obtain ⟨f, hf, rfl⟩ := hg
+      simp [reframe, expected, hc f hf])
+  rw [h]
+  congr 1
+  simp only [List.map_map]
+  apply List.map_congr_left
+  intro f _
+  exact expected_reframe dir f
+
+example : (loadStored (store 8 [] (([{ dir := "w0", base := "a.xyz", idx := none, velRev := true, order := [0, -1], vpot := some 0, ekin := none },
+      { dir := "w1", base := "b.xyz", idx := some 0, velRev := false, order := [7, 0], vpot := none, ekin := some 0 }] : List Frame).map expected
+      |>.map (reframe "load/3/accepted")))) =
+    .ok ([{ dir := "w0", base := "a.xyz", idx := none, velRev := true, order := [0, -1], vpot := some 0, ekin := none },
+      { dir := "w1", base := "b.xyz", idx := some 0, velRev := false, order := [7, 0], vpot := none, ekin := some 0 }].map expected) := by
+  rfl
+
 /-- the hypothesis "≥ 1 frame" is needed: an empty path is stored but does not load -/
 theorem load_store_empty (step : Nat) (mv : List String) : loadStored (store step mv []) = .error .index := by
   cases mv <;> rfl
